@@ -3,7 +3,7 @@
    Model: Status/Model.v (Scheduler.Status clause by clause; the agent's persisted snapshot sequence as a transition
    system over an abstract step scheduler - snapshot goroutines with separate compute / append labels, Close's compaction;
    client.GetLatestStatus; the daemon's Start guard; the socket as absent / stale / live).
-   `fx = false` is the pinned code, `fx = true` the candidate repair fixes/F8a.diff.
+   The model follows /repo after the repairs b9e9fa2 (F8a) and 3aa388e (F7a); F8b/F8c are not repaired and stay in the model.
    Every theorem quantifies over all table sizes n, socket pre-states s0 and label sequences ls; `exec ... ls = Some st`
    for an arbitrary ls means: st is the state at an arbitrary kill point of an arbitrary interleaving.
    Tie to the code: tools/props/C08.py (in-process agent runs: persisted lines and live answers against Status/Check.v;
@@ -14,137 +14,117 @@ From BD.Status Require Import Model Proofs Check ProofsCheck.
 
 (* While the run is in progress (Schedule started, not returned) the socket is bound and the reported status is `running`
    with the node table of the current state; more generally whenever the socket answers. *)
-Theorem C08_live : forall fx n s0 ls st,
-  exec fx (init n s0) ls = Some st -> in_progress st = true ->
-  alive st = true /\ report fx n st = (mkSnap ORunning (tbl (sc st)), false).
+Theorem C08_live : forall n s0 ls st,
+  exec (init n s0) ls = Some st -> in_progress st = true ->
+  alive st = true /\ report n st = (mkSnap ORunning (tbl (sc st)), false).
 Proof. exact live_in_progress. Qed.
 Print Assumptions C08_live.
 
-Theorem C08_live_when_bound : forall fx n st,
-  alive st = true -> report fx n st = (mkSnap ORunning (tbl (sc st)), false).
+Theorem C08_live_when_bound : forall n st,
+  alive st = true -> report n st = (mkSnap ORunning (tbl (sc st)), false).
 Proof. exact live_when_bound. Qed.
 Print Assumptions C08_live_when_bound.
 
 Example C08_live_nonvacuous : exists st,
-  exec false (init 2 SockStale) [LOpen; LWriteS0; LBind; LSched AStart; LSched (ALaunch 0); LSched (AEnd 0 true)] = Some st /\
-  in_progress st = true /\ map nst (s_tbl (fst (report false 2 st))) = [NSuccess; NNone] /\ s_ov (fst (report false 2 st)) = ORunning.
+  exec (init 2 SockStale) [LOpen; LWriteS0; LBind; LSched AStart; LSched (ALaunch 0); LSched (AEnd 0 true)] = Some st /\
+  in_progress st = true /\ map nst (s_tbl (fst (report 2 st))) = [NSuccess; NNone] /\ s_ov (fst (report 2 st)) = ORunning.
 Proof. exact live_nonvacuous. Qed.
 
-(* FULL STATEMENT (false of the pinned code, see C08_final_refuted):
-     forall ls st, exec fx (init n s0) ls = Some st -> mp st = MClosed -> persisted st = PSnap (snap_of fx (sc st)).
+(* FULL STATEMENT (false of the code, F8b/F8c not repaired - see C08_final_refuted):
+     forall ls st, exec (init n s0) ls = Some st -> mp st = MClosed -> persisted st = PSnap (snap_of (sc st)).
    After a complete run the persisted status is the final state - provided no snapshot computed before Schedule returned
    was still waiting for the writer's lock when it returned (decidable premise on the execution: quiet_at_return). *)
-Theorem C08_final_partial : forall fx n s0 ls st,
-  exec fx (init n s0) ls = Some st ->
-  quiet_at_return fx (init n s0) ls = true ->
+Theorem C08_final_partial : forall n s0 ls st,
+  exec (init n s0) ls = Some st ->
+  quiet_at_return (init n s0) ls = true ->
   mp st = MClosed ->
-  persisted st = PSnap (snap_of fx (sc st)) /\ report fx n st = (correct (snap_of fx (sc st)), false).
+  persisted st = PSnap (snap_of (sc st)) /\ report n st = (correct (snap_of (sc st)), false).
 Proof. exact final_partial. Qed.
 Print Assumptions C08_final_partial.
 
 Example C08_final_premise_satisfiable : exists ls st,
-  exec false (init 2 SockAbsent) ls = Some st /\ quiet_at_return false (init 2 SockAbsent) ls = true /\ mp st = MClosed /\
-  s_ov (fst (report false 2 st)) = OSuccess.
+  exec (init 2 SockAbsent) ls = Some st /\ quiet_at_return (init 2 SockAbsent) ls = true /\ mp st = MClosed /\
+  s_ov (fst (report 2 st)) = OSuccess.
 Proof. exact final_partial_premise_satisfiable. Qed.
 
 (* F8b: a run in which every step succeeded ends with the persisted status `running` (reported as failed) *)
 Theorem C08_final_refuted : exists ls st,
-  exec false (init 2 SockAbsent) ls = Some st /\ mp st = MClosed /\
-  all_succeed (tbl (sc st)) = true /\ s_ov (snap_of false (sc st)) = OSuccess /\
-  persisted st <> PSnap (snap_of false (sc st)) /\
-  s_ov (fst (report false 2 st)) = OError /\ map nst (s_tbl (fst (report false 2 st))) = [NSuccess; NRunning].
+  exec (init 2 SockAbsent) ls = Some st /\ mp st = MClosed /\
+  all_succeed (tbl (sc st)) = true /\ s_ov (snap_of (sc st)) = OSuccess /\
+  persisted st <> PSnap (snap_of (sc st)) /\
+  s_ov (fst (report 2 st)) = OError /\ map nst (s_tbl (fst (report 2 st))) = [NSuccess; NRunning].
 Proof. exact final_refuted. Qed.
 Print Assumptions C08_final_refuted.
 
-(* After a kill anywhere the reported status is never `running`. *)
-Theorem C08_crash_not_running : forall fx n s0 ls st,
-  exec fx (init n s0) ls = Some st -> s_ov (fst (report fx n (after_kill st))) <> ORunning.
-Proof. exact crash_not_running. Qed.
-Print Assumptions C08_crash_not_running.
+(* C08_crash - the full statement (since fix b9e9fa2; before it the second half was false: finding F8a, fixed).
+   After a kill at ANY point (= for every prefix of every execution) the reported status is not `running`, and it is
+   `finished` only if every step is finished or skipped.  No premise. *)
+Theorem C08_crash : forall n s0 ls st,
+  exec (init n s0) ls = Some st ->
+  s_ov (fst (report n (after_kill st))) <> ORunning /\
+  (s_ov (fst (report n (after_kill st))) = OSuccess -> all_succeed (tbl (sc st)) = true).
+Proof. exact crash. Qed.
+Print Assumptions C08_crash.
 
-(* FULL STATEMENT (false of the pinned code, see C08_crash_refuted):
-     forall ls st, exec false (init n s0) ls = Some st ->
-       s_ov (fst (report false n (after_kill st))) = OSuccess -> all_succeed (tbl (sc st)) = true.
-   ... and it is `finished` only if every step is finished or skipped - provided no snapshot was taken while
-   Scheduler.Status was inside the window of F8a (decidable premise on the execution: no_gap_snapshot). *)
-Theorem C08_crash_partial : forall fx n s0 ls st,
-  exec fx (init n s0) ls = Some st ->
-  no_gap_snapshot fx (init n s0) ls = true ->
-  s_ov (fst (report fx n (after_kill st))) = OSuccess ->
-  all_succeed (tbl (sc st)) = true.
-Proof. exact crash_partial. Qed.
-Print Assumptions C08_crash_partial.
+Example C08_crash_nonvacuous : exists ls st,
+  exec (init 2 SockAbsent) ls = Some st /\
+  s_ov (fst (report 2 (after_kill st))) = OSuccess /\ all_succeed (tbl (sc st)) = true.
+Proof. exact crash_nonvacuous. Qed.
 
-Example C08_crash_premise_satisfiable : exists ls st,
-  exec false (init 2 SockAbsent) ls = Some st /\ no_gap_snapshot false (init 2 SockAbsent) ls = true /\
-  s_ov (fst (report false 2 (after_kill st))) = OSuccess /\ all_succeed (tbl (sc st)) = true.
-Proof. exact crash_partial_premise_satisfiable. Qed.
+(* before fix b9e9fa2 this execution was the _refuted witness of F8a (reported `finished`, second step not started);
+   now the snapshot taken between the two steps says `running`, which a dead run shows as `failed` *)
+Example C08_crash_former_witness : exists st,
+  exec (init 2 SockAbsent) f8a_trace = Some st /\ s_ov (fst (report 2 (after_kill st))) = OError /\
+  map nst (s_tbl (fst (report 2 (after_kill st)))) = [NSuccess; NNone].
+Proof. exact f8a_trace_now_failed. Qed.
 
-(* F8a: chain of two steps, kill after the snapshot that follows the first: reported `finished`, second step not started *)
-Theorem C08_crash_refuted : exists ls st,
-  exec false (init 2 SockAbsent) ls = Some st /\
-  s_ov (fst (report false 2 (after_kill st))) = OSuccess /\
-  all_succeed (tbl (sc st)) = false /\
-  map nst (s_tbl (fst (report false 2 (after_kill st)))) = [NSuccess; NNone].
-Proof. exact crash_refuted. Qed.
-Print Assumptions C08_crash_refuted.
+(* C08_daemon - the full statement (since fix 3aa388e; before it false for a kill between the creation of the history file and
+   its first line: finding F7a, fixed).  After a kill at ANY point the daemon's Start guard neither takes the DAG for running
+   nor fails on the history: it reaches its minute guard. *)
+Theorem C08_daemon : forall n s0 ls st,
+  exec (init n s0) ls = Some st -> job_guard (report n (after_kill st)) = GMinuteGuard.
+Proof. exact daemon. Qed.
+Print Assumptions C08_daemon.
 
-(* With the repaired Scheduler.Status (fixes/F8a.diff) the full statement holds, no premise. *)
-Theorem C08_crash_fixed : forall n s0 ls st,
-  exec true (init n s0) ls = Some st ->
-  s_ov (fst (report true n (after_kill st))) <> ORunning /\
-  (s_ov (fst (report true n (after_kill st))) = OSuccess -> all_succeed (tbl (sc st)) = true).
-Proof. exact crash_fixed. Qed.
-Print Assumptions C08_crash_fixed.
+(* before fix 3aa388e: GRefusedErr (EOF) *)
+Example C08_daemon_former_witness : exists st,
+  exec (init 2 SockAbsent) [LOpen] = Some st /\ mp st = MOpened /\ job_guard (report 2 (after_kill st)) = GMinuteGuard.
+Proof. exact daemon_after_open. Qed.
 
-(* The daemon: after a kill anywhere its Start guard never takes the DAG for running, and reaches the minute guard unless
-   the kill fell between the creation of the history file and its first line (F7a: C08_daemon_refuted). *)
-Theorem C08_daemon_not_running : forall fx n s0 ls st,
-  exec fx (init n s0) ls = Some st -> job_guard (report fx n (after_kill st)) <> GRefusedRunning.
-Proof. exact daemon_not_running. Qed.
-Print Assumptions C08_daemon_not_running.
-
-Theorem C08_daemon_partial : forall fx n s0 ls st,
-  exec fx (init n s0) ls = Some st -> mp st <> MOpened ->
-  job_guard (report fx n (after_kill st)) = GMinuteGuard.
-Proof. exact daemon_partial. Qed.
-Print Assumptions C08_daemon_partial.
-
-Example C08_daemon_premise_satisfiable : exists st,
-  exec false (init 2 SockAbsent) [LOpen; LWriteS0; LBind; LSched AStart; LSched (ALaunch 0)] = Some st /\ mp st <> MOpened /\
-  job_guard (report false 2 (after_kill st)) = GMinuteGuard.
-Proof. exact daemon_partial_premise_satisfiable. Qed.
-
-Theorem C08_daemon_refuted : exists ls st,
-  exec false (init 2 SockAbsent) ls = Some st /\ job_guard (report false 2 (after_kill st)) = GRefusedErr.
-Proof. exact daemon_refuted. Qed.
-Print Assumptions C08_daemon_refuted.
+(* a kill inside Close's compaction between the creation of the twin and its first write: the complete original is reported *)
+Example C08_kill_inside_compaction : exists st,
+  exec (init 1 SockAbsent)
+    [LOpen; LWriteS0; LBind; LSched AStart; LSched (ALaunch 0); LSched (AEnd 0 true); LSched ADoneSend; LNotify; LCOv; LCTbl; LCAppend;
+     LSched AWait; LSched AReturn; LFinalCompute; LFinalAppend; LFinish; LUnbind; LCompactRead; LCompactCreate] = Some st /\
+  cfile st = Some [] /\ orig st = true /\
+  report 1 (after_kill st) = (snap_of (sc st), false) /\ s_ov (snap_of (sc st)) = OSuccess.
+Proof. exact kill_inside_compaction. Qed.
 
 (* After a kill anywhere a new agent's probe says "not running" and its bind (after the unlink) succeeds; the unlink is
    what makes it so. *)
-Theorem C08_restartable : forall fx n s0 ls st,
-  exec fx (init n s0) ls = Some st ->
+Theorem C08_restartable : forall n s0 ls st,
+  exec (init n s0) ls = Some st ->
   probe_running (sock (after_kill st)) = false /\ bind_ok true (sock (after_kill st)) = true.
 Proof. exact restartable. Qed.
 Print Assumptions C08_restartable.
 
 Theorem C08_unlink_needed : exists ls st,
-  exec false (init 2 SockAbsent) ls = Some st /\ bind_ok false (sock (after_kill st)) = false.
+  exec (init 2 SockAbsent) ls = Some st /\ bind_ok false (sock (after_kill st)) = false.
 Proof. exact unlink_needed. Qed.
 Print Assumptions C08_unlink_needed.
 
 (* The acceptance conditions of the correspondence check are necessary for model executions: every snapshot that exists
    anywhere reaches, node by node, the current state. *)
-Theorem C08_snapshots_reach_current : forall fx n s0 ls st,
-  exec fx (init n s0) ls = Some st ->
+Theorem C08_snapshots_reach_current : forall n s0 ls st,
+  exec (init n s0) ls = Some st ->
   forall x, In x (snaps st) -> tbl_reachb (s_tbl x) (tbl (sc st)) = true.
 Proof. exact snapshots_reach_current. Qed.
 Print Assumptions C08_snapshots_reach_current.
 
 (* ... and carries Scheduler.Status of an earlier-or-equal scheduler state (Agent.Status reads the overall status before it
    copies the node table). *)
-Theorem C08_snapshot_overall : forall fx n s0 ls st,
-  exec fx (init n s0) ls = Some st ->
-  forall x, In x (snaps st) -> exists s1, s_ov x = ov_of fx s1 /\ tbl_reachb (tbl s1) (s_tbl x) = true.
+Theorem C08_snapshot_overall : forall n s0 ls st,
+  exec (init n s0) ls = Some st ->
+  forall x, In x (snaps st) -> exists s1, s_ov x = ov_of s1 /\ tbl_reachb (tbl s1) (s_tbl x) = true.
 Proof. exact snapshot_overall. Qed.
 Print Assumptions C08_snapshot_overall.
